@@ -115,4 +115,8 @@ MUTATIONS += [
          old="            if ode_system.integration_status == \"Integration terminated upon finding a triggered event.\" and ode_system[-1].t != t:", new="            if False:"),
     dict(name="revert_D48_args_names_from_getfullargspec", props=["C18"], file=DS,
          old="        fn_params = [param.name for param in inspect.signature(fn).parameters.values()\n                     if param.kind in (param.POSITIONAL_ONLY, param.POSITIONAL_OR_KEYWORD)]", new="        fn_params = inspect.getfullargspec(fn)[0]"),
+    dict(name="revert_D49_zero_row_times_stale_stages", props=["C02"], file=RK,
+         old="        if not D.ar_numpy.any(stage_coeffs != 0.0):", new="        if False:"),
+    dict(name="revert_D49_splitting_buffer_cleared_by_product", props=["C02"], file=IT,
+         old="        self.dState[...] = 0.0", new="        self.dState *= 0.0"),
 ]
